@@ -40,7 +40,7 @@ VARIABLES mi,        \* index of the class model in the catalogue
           ret,       \* process: node id returned by the frame just popped
           log,       \* history: savorize calls and __init__ calls, in order
           res,       \* <<"NONE">> | <<"VAL", v>> | <<"ERR", classes, cites, keys>>
-          visited,   \* nodes whose processing has started
+          visited,   \* <<node, expected type>> pairs whose processing has started
           shared     \* observation: a node was re-entered (alias) after it had been modified
 
 vars == <<mi, dt, heap, root, doc0, open, nalias, phase, stack, ret, log, res, visited, shared>>
@@ -658,13 +658,29 @@ Fail(classes, cites, keys) ==
 
 \* has this node been changed since it was composed?  (alias revisits)
 Modified(n) == n <= Len(doc0.h) /\ heap[n] # doc0.h[n]
+\* ... in a way a second visit cannot notice: only the tag of a mapping was
+\* set to the tag of the plain class it was loaded as (the tag check of the
+\* recogniser accepts that), keys untouched
+Benign(n) ==
+    /\ n <= Len(doc0.h)
+    /\ heap[n].k = doc0.h[n].k /\ heap[n].v = doc0.h[n].v /\ heap[n].c = doc0.h[n].c
+    /\ \/ heap[n].t = doc0.h[n].t
+       \/ /\ heap[n].k = "m" /\ TagClass(heap[n].t) # ""
+          /\ Cls(TagClass(heap[n].t)).kind = "plain" /\ IsCore(doc0.h[n].t)
+    /\ heap[n].k = "m" =>
+          \A i \in DOMAIN heap[n].c : i % 2 = 1 =>
+              heap[n].c[i] <= Len(doc0.h) /\ heap[heap[n].c[i]] = doc0.h[heap[n].c[i]]
+\* F7 classifier: a node is entered again (through an alias) with another
+\* expected type, or after it was rewritten in a way the visit can notice
+HarmfulRevisit(n, T) ==
+    \E p \in visited : p[1] = n /\ (p[2] # T \/ (Modified(n) /\ ~Benign(n)))
 
 Recognise ==
     /\ phase = "process" /\ stack # <<>> /\ Top.pc = "rec"
     /\ LET f == Top
            r == Rec(heap, f.n, f.t, Fuel(heap)) IN
-       /\ shared' = (shared \/ (f.n \in visited /\ Modified(f.n)))
-       /\ visited' = visited \cup {f.n}
+       /\ shared' = (shared \/ HarmfulRevisit(f.n, f.t))
+       /\ visited' = visited \cup {<<f.n, f.t>>}
        /\ IF r.ex # "" THEN
               /\ Fail({r.ex}, r.c, r.k) /\ heap' = r.h
               /\ UNCHANGED <<ret, log>>
